@@ -57,6 +57,7 @@ static int ctl_mode(const char* integ, int o1, int o2, int o3, int with_min_dt, 
         r->ri_ias15.min_dt = with_min_dt ? 0.02 : 0.0;
     }else if (!strcmp(integ, "bs")){
         r->integrator = REB_INTEGRATOR_BS; r->ri_bs.eps_rel = eps; r->ri_bs.eps_abs = eps;
+        if (with_min_dt){ r->ri_bs.min_dt = 1e-3; r->ri_bs.max_dt = (o1 ? o1 : 5)*0.01; }   /* requested first step may exceed max_dt */
     }else return 2;
     reb_simulation_steps(r, o3);
     fprintf(stderr, "STATE %.17g %.17g %.17g\n", r->particles[1].x, r->particles[1].y, r->t);
